@@ -30,17 +30,24 @@ def c02_alpha(n, full):
 
 
 def c02_rank(r):
-    wild = str(r.params.get('prog', '')).startswith('?')
+    """order of the runs inside a tier: cheapest and most discriminating first, so that a loaded machine cuts the
+    tail (largest shapes), not the head, and the vacuity guards see every path early"""
+    prog = str(r.params.get('prog', ''))
+    wild = prog.startswith('?')
     n = int(r.params.get('n', 0))
     if r.mode != 'plain':
         return 0
-    if r.bound == 1 and not wild:
-        return 1 + n
-    if r.bound == 1:
-        return 4 + n
+    if r.bound == 0 and n <= 1 and prog != '?3':
+        return 1
+    if r.bound == 1 and n <= 1 and not wild:
+        return 2
+    if r.bound == 1 and n <= 1:
+        return 3
     if r.bound == 0:
-        return 7 + n + (3 if r.params['prog'] == '?3' else 0)
-    return 20
+        return 4 + (1 if prog == '?3' else 0)
+    if r.bound == 1:
+        return 6
+    return 7
 
 
 def c02_runs(tier):
@@ -84,18 +91,18 @@ def c02_runs(tier):
         add('cl', 1, 4, 'sq', 'd', 1, t1='q')
     else:
         for set_ in SETS:
-            add(set_, 1, 0, '?1', '?', 1, alpha=c02_alpha(1, True), budget=240)  # every step x multiplier x wait
+            for slm in (1, 4):  # every step x every wait
+                add(set_, 1, slm, '?1', '?', 1, alpha=c02_alpha(1, True), budget=200)
             k = 0
             for p in progs1:
                 add(set_, 1, (1, 4)[k % 2], p, '?', 1, budget=90)
                 k += 1
-            for p in progs2:
+            for p in progs2[:2]:
                 add(set_, 2, (1, 4)[k % 2], p, waits[k % 5], 1, budget=120)
                 k += 1
         # two submitting threads on a ConcurrentTaskSet (joined before the wait, as documented)
         for set_ in ('ch', 'cl'):
-            add(set_, 1, 4, 'sq', '?', 1, t1='qs', budget=120)
-            add(set_, 2, 1, 'b2', 'd', 1, t1='s', budget=120)
+            add(set_, 1, 4, 'sq', '?', 1, t1='qs', budget=150)
         # bound 2 on the smallest shapes
         for set_, p, w in (('ts', 's', 'w'), ('ts', 'b1', 'd'), ('ch', 'q', '1'), ('ch', 'a', 'w'), ('cl', 's', 'd'), ('cl', 'b1', 'w')):
             add(set_, 1, 4, p, w, 2, budget=100)
@@ -155,21 +162,22 @@ def c04_runs(tier):
                 continue
             # (no pool gates under a cascade: the top's wait() on T0 could pick one up and never reach the runner)
             for g in ([0] if n == 0 else [0, c04_gates(set_, n)]):
+                if n == 2 and g:
+                    continue
                 add(set_, n, 'p1', '?2' if (quick or n == 2) else '?3', 0, g=g, budget=60 if quick else 200)
-                if not (quick and (n == 0 or g)):
+                if not (quick and (n == 0 or g)) and n < 2:
                     add(set_, n, 'p2', '?1' if quick else '?2', 0, g=g, budget=60 if quick else 200)
     # (b) bound 1: the cancel races the submissions
-    race_alpha = 'sq,qs,sb2,b2s,b3s,B2s,sss'
     for set_ in ('ch', 'cl'):
         # cancel() on a second thread (ConcurrentTaskSet), released after `pos` steps of the submitter
         if quick:
             add(set_, 1, 't1', 'sq', 1, g=c04_gates(set_, 1), budget=60)
             add(set_, 1, 't1', 'b3s', 1, pg=2, budget=60)
         else:
-            add(set_, 1, 't1', '?1', 1, load='?', budget=400, alpha=race_alpha)
-            for p in ('sq', 'sb2', 'b2s'):
-                add(set_, 2, 't1', p, 1, g=c04_gates(set_, 2), budget=150)
-            add(set_, 1, 't1', 'sq', 2, g=c04_gates(set_, 1), budget=150)
+            add(set_, 1, 't1', '?1', 1, load='?', budget=300, alpha='sq,b2s,b3s,sss')
+            add(set_, 2, 't1', 'sq' if set_ == 'cl' else 'sb2', 1, g=c04_gates(set_, 2), budget=200)
+            if set_ == 'cl':
+                add(set_, 1, 't1', 'sq', 2, g=c04_gates(set_, 1), budget=150)
     for set_ in SETS:
         gl = c04_gates(set_, 1)
         # T0 cancels the top of a cascade while a pool thread runs the child set
@@ -179,8 +187,9 @@ def c04_runs(tier):
             for g in (0, gl):
                 add(set_, 1, 'P1', '?1', 1, g=g, budget=200, alpha='sb2,sq,b3s')
             add(set_, 1, 'P2', '?1', 1, g=gl, budget=200, alpha='sb2,sq')
-            add(set_, 2, 'P1', 'sq', 1, g=0, budget=200)
-            add(set_, 1, 't0', '?2', 1, g=gl, budget=240)
+            if set_ == 'cl':
+                add(set_, 2, 'P1', 'sq', 1, g=0, budget=200)
+            add(set_, 1, 't0', '?1', 1, g=gl, budget=200)
             add(set_, 1, 'p1', '?1', 1, g=gl, budget=200)
         # a throwing task cancels the set: thrower queued first / first of a bulk call that continues inline /
         # queued with a bulk behind it / inline (propagates to the caller, no cancel)
@@ -191,14 +200,16 @@ def c04_runs(tier):
                     add(set_, n, 'ex', 'qsb2', 1, g=0, mask=1, pos=0, budget=60)
                 add(set_, n, 'ex', 'b3', 1 if n < 2 else 0, g=g, mask=1, pos=0, budget=60)
             else:
-                add(set_, n, 'ex', '?1', 1, g=0, mask=1, pos=0, budget=200, alpha='qsb2,qb2s,qqs')
-                add(set_, n, 'ex', '?1', 1, g=g, mask=1, pos=0, budget=200, alpha='b3,qb2s,sqs')
-                add(set_, n, 'ex', 'B2sq', 1, g=0, mask=2, pos=0, budget=150)
+                if n < 2:
+                    add(set_, n, 'ex', '?1', 1, g=0, mask=1, pos=0, budget=200, alpha='qsb2,qb2s,qqs')
+                    add(set_, n, 'ex', 'B2sq', 1, g=0, mask=2, pos=0, budget=150)
+                add(set_, n, 'ex', '?1', 1, g=g, mask=1, pos=0, budget=200, alpha='b3,qb2s,sqs' if n < 2 else 'b3,qb2s')
     # default multipliers: a pool thread (cascade runner) cancels and goes on submitting
     for set_ in SETS:
         add(set_, 1, 'p1', 'qs', 1, slm=4, plm=32, budget=60)
         if not quick:
-            add(set_, 2, 'p1', 'qqs', 1, slm=4, plm=32, budget=200)
+            if set_ == 'cl':
+                add(set_, 2, 'p1', 'qqs', 1, slm=4, plm=32, budget=200)
             add(set_, 1, 'P1', 'qsb2', 1, slm=4, plm=32, budget=100)
     # sanitizer legs
     add('cl', 1, 't1', 's', 1, g=0, pos=0, mode='tsan', budget=40)
@@ -264,6 +275,8 @@ def c05_runs(tier):
             add(set_, 1, 'qq', 3, 1, g=0, ws='ww8', r='n', budget=60)
             add(set_, 1, 'b3', 5, 1, g=0, ws='ww8', r='n', slm=4, budget=60)
             add(set_, 1, 'sq', 3, 1, g=gl, ws='w8w', r='x', budget=60)
+            add(set_, 1, '?1', -1, 1, g=-1, alpha='q,sq,b2', ws='8w0', r='x', budget=60)
+            add(set_, 2, 'qq', 3, 1, g=0, ws='w', r='n', budget=60)
         else:
             # every program of <= 3 tasks below x every subset of throwers x {no load, set over its load factor}
             add(set_, 1, '?1', -1, 1, g=-1, alpha='s,q,b1,ss,sq,qq,b2,B2,qqq,b3,sb2,b2q', ws='ww8', r='n', budget=500)
